@@ -3,7 +3,7 @@
     grammar of DESIGN.md 4.1 — is not machine-checked yet; trees are decided by
     correspondence with the implementation and with the reference parser).
     Statements only. *)
-From JP Require Import Base Gen.Tables Spec.TableSpec.
+From JP Require Import Base Value Lexer Parser Gen.Tables Spec.TableSpec Proofs.PrattProof.
 
 (** The binding-power table and the projection-stop threshold extracted from
     lexer.rs / parser.rs on this run have the documented order. Any change of
@@ -18,3 +18,18 @@ Print Assumptions C04_table_order.
 Theorem C04_spec_table_order : table_order_ok spec_lbp spec_stop = true.
 Proof. exact spec_table_order. Qed.
 Print Assumptions C04_spec_table_order.
+
+(** The Pratt invariant of the parser (code and reference, any table): an operand
+    parsed in a context of binding power [rbp] extends over every following
+    operator that binds tighter — what follows it does not bind tighter than [rbp]. *)
+Theorem C04_operand_extends_maximally : forall L STOP strict f rbp st t st',
+  expr L STOP strict f rbp st = Ok (t, st') -> L (peek st' 0) <= rbp.
+Proof. exact expr_extends_maximally. Qed.
+Print Assumptions C04_operand_extends_maximally.
+
+(** An accepted expression is one complete operand of the weakest context followed by the end of the input. *)
+Theorem C04_accepts_whole_input_only : forall L STOP strict fuel toks t,
+  parse_tokens L STOP strict fuel toks = Ok t ->
+  exists st', expr L STOP strict fuel 0 (mkPst toks 0) = Ok (t, st') /\ peek st' 0 = TEof.
+Proof. exact parse_tokens_consumes_all. Qed.
+Print Assumptions C04_accepts_whole_input_only.
